@@ -1,10 +1,12 @@
 ------------------------------- MODULE Gen_C14 -------------------------------
 (* (G) input generation for C14: the input universe of C14.tla written out as JSON. *)
 EXTENDS C14, Json, IOUtils, Randomization
-CONSTANTS RLen, RN       \* random part: RN sequences of each length in RLen
+CONSTANTS RLen, RN,      \* random part: RN sequences of each length in RLen
+          FocusIdx, FLen  \* longer exhaustive part over the tokens that can glue into escapes ('%', '%4', escaped hex digits ...)
 GenAll == {RenderToks(ix) : ix \in Inputs}
 GenRnd == UNION {{RenderToks(ix) : ix \in RandomSubset(RN, [1..n -> 1..NTok])} : n \in RLen}
+GenFocus(d) == UNION {{RenderToks(ix) : ix \in [1..n -> FocusIdx]} : n \in 0..FLen}
 GenInit == /\ inp = <<>> /\ fn = "gen" /\ out1 = <<>> /\ out2 = <<>> /\ stage = 9
-           /\ JsonSerialize(IOEnv.GEN_OUT, [all |-> SetToSeq(GenAll), rnd |-> SetToSeq(GenRnd)])
+           /\ JsonSerialize(IOEnv.GEN_OUT, [all |-> SetToSeq(GenAll), rnd |-> SetToSeq(GenRnd), focus |-> SetToSeq(GenFocus(0))])
 GenNext == FALSE /\ UNCHANGED vars
 =============================================================================
